@@ -48,7 +48,7 @@ def run(c):
                 "left-overs of gogrep.MatcherState other than CapturePreset are outside the model"]
 
     c.build_theories()
-    c.require_theories("Ast/*.v", "Engine/RunState.v", "Engine/Reentrant.v")
+    c.require_theories("Ast/*.v", "Engine/RunState.v", "Engine/Reentrant.v", "Engine/AnswerCache.v")
     ok = walkerlib.go2coq(c, "runnerstate", "Gen_RunnerState.v")
     inst_ok = False
     if ok:
